@@ -38,8 +38,36 @@ def edge_value(rng):
     return fin(c, -k, neg=neg, pad=rng.choice([0, 0, 1]))
 
 
+def setrat_cases(rng, count):
+    """SetRat with numerators/denominators far longer than the receiver's precision: the digits that decide
+    the rounding direction / exactness lie well beyond prec (+ guard words) digits"""
+    for _ in range(count):
+        prec = rng.choice([1, 2, 3, 7, 16, 19, 20, 34, 38, 40, 57])
+        z = C01.recv(rng, prec=prec)
+        gap = rng.choice([prec + 20, prec + 39, prec + 41, prec + 60, prec + 100, 2 * prec + 77])
+        head = common.rand_coeff(rng, rng.choice([1, 1, 2, 5, prec]))
+        tail = rng.choice([1, 1, 2, 7, 10 ** rng.randint(0, 5), common.rand_coeff(rng, 6)])
+        long_ = head * 10 ** gap + rng.choice([1, -1]) * tail
+        small = rng.choice([2, 3, 4, 5, 7, 8, 16, 125, 3 * 10 ** 5, 10 ** 10 + 1, common.rand_coeff(rng, 25)])
+        k = rng.randint(0, 3)
+        if k == 0:
+            num, den = long_, small
+        elif k == 1:
+            num, den = small, long_
+        elif k == 2:       # exact quotient times (1 + tiny)
+            q = common.rand_coeff(rng, prec)
+            num, den = q * small * 10 ** gap + rng.choice([1, -1]), small * 10 ** rng.randint(0, 3)
+        else:
+            num, den = common.rand_coeff(rng, rng.randint(1, 300)), common.rand_coeff(rng, rng.randint(1, 300))
+        num = max(num, 1) * rng.choice([1, -1]); den = max(den, 2)
+        f = Fraction(num, den)
+        yield dict(family="setrat-long", vars=[z], ops=["SetRat 0 %d %d" % (f.numerator, f.denominator), "MinPrec 0"])
+
+
 def gen(rng, tier):
     n = 1 if tier == "quick" else 12
+    for c in setrat_cases(rng, 200 * n):
+        yield c
     getters = ["Int64 0", "Uint64 0", "Int 0", "Rat 0", "IsInt 0", "MinPrec 0"]
     for _ in range(500 * n):
         x = edge_value(rng) if rng.randint(0, 2) else common.rand_any(rng, 45, wide=False)
